@@ -579,7 +579,9 @@ def main(tier, seed, only=None):
                        "rule": "libFuzzer campaigns (2 instances x 8 decoder families, exact-size input buffers, ASan) started from structure-aware seeds and %d mutants per family (non-minimal/indefinite/huge lengths, all tag forms, truncation, padded/negative integers, inner>outer lengths, all APDU Lc/Le forms); "
                                "in-target oracles: bounded consumption, probe == real call, canonical re-encoding, enc->dec identity, an independent reference TL parser; "
                                "distinct_nontrivial = inputs kept in the corpora because they reached new coverage features (not rejected at the first octet by construction of the seeds); "
-                               "plus all %d octet strings of length <= 3 through the DER target (exhaustive)" % (len(M["der"]), exh_count),
+                               "plus all %d octet strings of length <= 3 through the DER target (exhaustive); "
+                               "plus structured encoder round trips driven from Python (keys the fuzz targets cannot guess): CV certificates of 4 key lengths x 7 configurations of the optional access templates "
+                               "(decode == encoded content, re-encode == certificate), protected commands / responses at the largest data fields of the extended length forms, re-sealed bpki containers" % (len(M["der"]), exh_count),
                        "samples": samples, "exhaustive": False, "exhaustive_subdomains": ["all octet strings of length 0..3 through derTLDec/derDec/derIsValid and every typed decoder: %d inputs" % exh_count],
                        "per_target": stats, "replayed_regressions": replayed, "notes": notes},
           "assumptions": ["libFuzzer campaigns are only approximately reproducible from the seed; a saved artifact is the reproducible unit", "the reference TL parser in fuzz/fz.c transcribes the rules of der.h",
